@@ -1,4 +1,6 @@
 import SwcVerif.Props.C11
+import SwcVerif.Proofs.Invariance
+import SwcVerif.Props.C11Gen
 #print axioms C11.rigid_preserves_distances
 #print axioms C11.scale_distances
 #print axioms C11.lengths_scale
@@ -16,3 +18,16 @@ import SwcVerif.Props.C11
 #print axioms C11.angle_invariant_of_isometry
 #print axioms C11.rigid_preserves_angles
 #print axioms C11.angle_data_scale
+#print axioms C11.generated_lmgeo_under_map
+#print axioms C11.generated_bif_angles_under_map
+#print axioms C11.generated_nodefeat_under_map
+#print axioms C11.generated_sholl_under_map
+#print axioms C11.generated_rigid_invariance
+#print axioms C11.generated_scale
+#print axioms C11.generated_rigid_source_matrices
+#print axioms C11.generated_counts_coordinate_free
+#print axioms C11.moved_mapCols
+#print axioms Invar.rigid_rowRel
+#print axioms Invar.scale_rowRel
+#print axioms Invar.Homog.scale
+#print axioms Invar.path_length_general
